@@ -60,6 +60,12 @@ def holds(op, a, b, got):
 
 
 def gen_cases(chk):
+    extra_pow = []
+    for sh in (32, 48, 56, 57, 58, 59, 60, 61, 62):
+        for k in (-3, -1, 0, 1, 2, 3, 5, 7):
+            for b in (0, 1, 2, 3):
+                extra_pow.append(("**", 2 ** sh + k, b))
+                extra_pow.append(("**", -(2 ** sh) + k, b))
     cases = []
     small = range(-9, 10)
     for op, _ in OPS:
@@ -102,6 +108,8 @@ def gen_cases(chk):
         if op == "-%":
             b = 0
         cases.append((op, a, b))
+    # small bases first, then bases that agree with them modulo a power of two (what a memo keyed too coarsely would confuse)
+    cases += [c for c in extra_pow if -(2 ** 63) <= c[1] < 2 ** 63]
     return cases
 
 
